@@ -5,12 +5,14 @@ import (
 	"encoding/json"
 	"errors"
 	"fmt"
+	"github.com/dave/dst/decorator/resolver"
 	"go/parser"
 	"go/token"
 	"math/rand"
 	"os"
 	"path/filepath"
 	"sort"
+	"sync"
 	"time"
 
 	"github.com/dave/dst"
@@ -50,6 +52,10 @@ var c20Sources = []string{
 	"package pkg\n\nconst H = `first\nsecond\n\tthird\n`\n\nfunc I() string { return H }\n",
 	// an import declaration without specs (legal, and gofmt leaves it alone)
 	"package pkg\n\nimport ()\n\nimport (\n\t\"fmt\"\n)\n\nvar G = fmt.Sprint()\n",
+	// the same paths as in the first two sources under other names (one Restorer serves all files of a save:
+	// what it learns from one file must not leak into the next)
+	"package pkg\n\nimport f \"fmt\"\n\nfunc J() { f.Println(\"j\") }\n",
+	"package pkg\n\nimport \"strings\"\n\nvar K = strings.ToUpper(\"k\")\n",
 	// generated code: a //line directive above the package clause names another file (goyacc style)
 	"//line grammar.y:2\npackage pkg\n\nimport \"sort\"\n\n//line grammar.y:10\nfunc E(x []int) { sort.Ints(x) }\n",
 }
@@ -133,29 +139,29 @@ func c20Run(pick []int, dirs int, edited []int, failFile int) saveObs {
 			want[i] = buf.String()
 		}
 	}
-	// the resolver fails from the first call made while file failFile is being printed: calls are
-	// attributed to files by counting the calls of a clean print of the preceding files
-	callsBefore := 0
+	// the resolver fails when it is asked about a package that file failFile needs and no file in front
+	// of it does (found by printing every file alone with a recording resolver). How often, in which
+	// order and whether the implementation asks again about a package it already knows is left open.
+	sentinel := fmt.Errorf("save sentinel: %w", errInjected)
+	rr := &pathFailRR{inner: guess.New(), fail: map[string]bool{}, err: sentinel}
 	if failFile > 0 {
-		for i := 0; i < failFile-1; i++ {
-			rr := &failingRR{inner: guess.New()}
+		seen := map[string]bool{}
+		for i := 0; i < failFile; i++ {
+			rec := &pathFailRR{inner: guess.New(), asked: map[string]bool{}}
 			var buf bytes.Buffer
-			decorator.NewRestorerWithImports("example.com/pkg", rr).Fprint(&buf, dst.Clone(pkg.Syntax[i]).(*dst.File))
-			callsBefore += rr.calls
+			decorator.NewRestorerWithImports("example.com/pkg", rec).Fprint(&buf, dst.Clone(pkg.Syntax[i]).(*dst.File))
+			for p := range rec.asked {
+				if i == failFile-1 && !seen[p] {
+					rr.fail[p] = true
+				}
+				seen[p] = true
+			}
 		}
-		// does file failFile make a call at all?
-		rr := &failingRR{inner: guess.New()}
-		var buf bytes.Buffer
-		decorator.NewRestorerWithImports("example.com/pkg", rr).Fprint(&buf, dst.Clone(pkg.Syntax[failFile-1]).(*dst.File))
-		if rr.calls == 0 {
+		if len(rr.fail) == 0 {
+			// file failFile asks about nothing new: no failure can be pinned to it
 			o.FailFile = 0
 			failFile = 0
 		}
-	}
-	sentinel := fmt.Errorf("save sentinel: %w", errInjected)
-	rr := &failingRR{inner: guess.New(), err: sentinel}
-	if failFile > 0 {
-		rr.k = callsBefore + 1
 	}
 	var serr error
 	if msg := guard(func() { serr = pkg.SaveWithResolver(rr) }); msg != "" {
@@ -190,6 +196,28 @@ func c20Run(pick []int, dirs int, edited []int, failFile int) saveObs {
 		}
 	}
 	return o
+}
+
+// pathFailRR fails when asked about one of the given package paths; it records what it is asked.
+type pathFailRR struct {
+	inner resolver.RestorerResolver
+	fail  map[string]bool
+	asked map[string]bool
+	err   error
+	mu    sync.Mutex
+}
+
+func (f *pathFailRR) ResolvePackage(path string) (string, error) {
+	f.mu.Lock()
+	if f.asked != nil {
+		f.asked[path] = true
+	}
+	bad := f.fail[path]
+	f.mu.Unlock()
+	if bad {
+		return "", f.err
+	}
+	return f.inner.ResolvePackage(path)
 }
 
 func checkC20(c *Ctx) {
@@ -279,7 +307,7 @@ func checkC20(c *Ctx) {
 	validateTraces(c, "SaveTrace", saveTraceCfg, items, 3000, false, func(it traceItem, res *TLCResult) {
 		c.Fail(Finding{Sig: "save-" + res.Violated, Input: it.Key, What: fmt.Sprintf("predicate %s of SaveTrace.tla fails: %s (%s)", res.Violated, truncate(string(it.Trace), 400), it.Key), Replay: it.Replay})
 	})
-	c.Set("rule", "case = one package (1-3 files from four sources, 1-2 directories, each file unedited, grown or shrunk by an edit) saved with a resolver failing while file i is printed (i = 0..n); non-trivial = a failure or an edit; distinct by package + edit mask + failure position")
+	c.Set("rule", "case = one package (1-3 files from nine sources, 1-2 directories, each file unedited, grown or shrunk by an edit) saved with a resolver failing while file i is printed (i = 0..n); non-trivial = a failure or an edit; distinct by package + edit mask + failure position")
 }
 
 func init() {
